@@ -13,8 +13,9 @@ Where the code (hence the model) deviates from the guide, the deviation is prove
 * F-C03-1 `ellipsis_on_unsized_raises`, F-C03-4 `map_on_null_raises`,
   F-C03-5 `named_rest_on_range_raises`  — errors instead of "try the next arm"
   (`no_match_falls_through_partial` assumes the run raised no error);
-* F-C03-2 `subject_clobber_witness` — `match x` with a pattern that binds `x`
-  (all theorems are about a subject held in a temporary, `Src.tmp`);
+* F-C03-2 is repaired (/repo 65de4a1): `match_local_is_match_value`, `match_local_same_id_spec`,
+  `match_local_same_id_witness` — `match x` destructures a private copy, so the theorems about a
+  subject held in a temporary (`Src.tmp`) cover it, patterns binding `x` included;
 * F-C03-3 `nonlast_alt_early_exit_witness` — alternatives other than the last one
   (`pat_spec` is about the last alternative; `nonlast_alt_spec_partial` proves the same for every
   other alternative on `earlyFree` patterns, i.e. excluding exactly the F-C03-3 shape;
@@ -300,6 +301,28 @@ theorem subject_once (F : FloatOps) (C : Cfg) (v : Val) (arms : List Arm) (ρ : 
   have h := evalArms_no_subj F C arms 0 (.tmp v) ρ
   simp [evalMatch, List.count_eq_zero.mpr h]
 
+/-! ## a bare local as subject (`match x`) -/
+
+/-- `compile_match` matches a private copy of a local (`subjectCopied`, /repo 65de4a1): matching
+the local `x` is matching its value held in a temporary, so every theorem of this file
+(`pat_spec`, `nonlast_alt_spec_partial`, `first_match`, `binds_exactly`, …) applies to `match x`
+verbatim — also when patterns bind `x` itself, at any position -/
+theorem match_local_is_match_value (F : FloatOps) (C : Cfg) (x : Name) (arms : List Arm) (ρ : Env)
+    (hC : C.subjectCopied = true) :
+    evalMatch F C (.var x) arms ρ = evalArms F C arms 0 (.tmp (ρ x)) ρ := by
+  simp [evalMatch, hC]
+
+/-- in particular: an arm whose pattern may bind the subject's own name runs exactly when the
+pattern matches the value the local held *before* the match, with exactly the declared bindings
+(replaces the former negative result for F-C03-2) -/
+theorem match_local_same_id_spec (F : FloatOps) (C : Cfg) (x : Name) (p : Pat) (ρ : Env) (β : Writes)
+    (hC : C.subjectCopied = true) (hw : wf p = true) (hv : noRange (ρ x) = true)
+    (hd : Decl F p (ρ x) β) :
+    (evalMatch F C (.var x) [⟨[.one p], none⟩] ρ).out = .arm 0 (ρ.apply β) := by
+  rw [match_local_is_match_value F C x _ ρ hC]
+  have := (pat_spec F C p (ρ x) ρ (ρ.apply β) true hw hv).2 ⟨β, hd, rfl⟩
+  simp [evalArms, mAlts, mAlt, this]
+
 /-! ## deviations from the guide: shapes (for all inputs) and witnesses -/
 
 /-- F-C03-1 (the recorded tree, `sizeNullJumps = false`): *every* parenthesised pattern with an
@@ -511,14 +534,14 @@ theorem ellipsis_on_number_witness :
   rintro ⟨β, h⟩
   simp [Decl, n, Val.int, view] at h
 
-/-- F-C03-2: `x = (1, 2); match x` / `(x, y) then …`: the first write destroys the subject, the
-second element is read from the number 1 -/
-theorem subject_clobber_witness :
-    isErr .index (evalMatch F0 Cfg.recorded (.var 9)
-      [⟨[.one (.seq [.id 9 none, .id 1 none] none [])], none⟩] (ρ0.set 9 (.tuple [n 1, n 2]))).out = true ∧
-    isArm 0 (evalMatch F0 Cfg.recorded (.expr (.tuple [n 1, n 2]))
-      [⟨[.one (.seq [.id 9 none, .id 1 none] none [])], none⟩] ρ0).out = true := by
-  constructor <;> decide
+/-- F-C03-2, repaired in /repo 65de4a1 (`subjectCopied`): `x = (1, 2); match x` / `(x, y) then …`
+runs the arm with `x = 1`, `y = 2` (before the repair the first write destroyed the subject and the
+second element was read from the number 1) -/
+theorem match_local_same_id_witness :
+    let r := evalMatch F0 { Cfg.recorded with subjectCopied := true } (.var 9)
+      [⟨[.one (.seq [.id 9 none, .id 1 none] none [])], none⟩] (ρ0.set 9 (.tuple [n 1, n 2]))
+    isArm 0 r.out = true ∧ isInt 1 (outEnv r.out 9) = true ∧ isInt 2 (outEnv r.out 1) = true := by
+  decide
 
 /-- F-C03-3: `match ((1, 2), 3)` / `((1, 2), 4) or 5 then …` / `else …` takes arm 0 although 3 ≠ 4;
 as the only (last) alternative the same pattern correctly falls to `else` -/
